@@ -9,51 +9,6 @@ GHOST_DEFS
 #include "extracted_zalloc.c"
 #include "src/lib/comp/comp.c"
 
-typedef struct {
-    int err0, mode, ctype; int ctx_live, type_set; int use_dict; size_t fd_size;
-    size_t hu_total0, hu_k, k1; int hu_seen0, hu_final0, hu_inits0;
-    size_t comp_length, length; int valid0; int has_next;
-    size_t data_loc0, dc_size0, dc_loc0, data_size0;
-} IN_cd;
-V_INPUT(IN_cd)
-
-static zckCtx *mk_reader(IN_cd *in) {
-    V_ASSUME(in->err0 >= 0 && in->err0 <= 2 && SPEC_HASH_VALID(in->ctype));
-    V_ASSUME(in->hu_final0 >= 0 && in->hu_final0 < 1000 && in->hu_inits0 >= 0 && in->hu_inits0 < 1000 && in->hu_seen0 >= 0 && in->hu_seen0 < 1000);
-    zckCtx *zck = calloc(1, sizeof(*zck));
-    V_ASSUME(zck != NULL);
-    zck->mode = in->mode; zck->error_state = in->err0;
-    zck->chunk_hash_type.type = in->ctype; zck->chunk_hash_type.digest_size = SPEC_DIGEST_SIZE(in->ctype);
-    zckChunk *c = calloc(1, sizeof(*c));
-    V_ASSUME(c != NULL);
-    c->zck = zck; c->digest_size = SPEC_DIGEST_SIZE(in->ctype);
-    c->digest = malloc(c->digest_size);
-    V_ASSUME(c->digest != NULL);
-    c->comp_length = in->comp_length; c->length = in->length; c->valid = in->valid0;
-    if(in->has_next) { c->next = calloc(1, sizeof(zckChunk)); V_ASSUME(c->next != NULL); }
-    zck->index.first = c; zck->comp.data_idx = c;
-    zck->comp.data_loc = in->data_loc0;
-    V_ASSUME(in->dc_loc0 <= in->dc_size0 && in->dc_size0 <= 64 && in->data_size0 <= 64);
-    if(in->dc_size0) { zck->comp.dc_data = malloc(in->dc_size0); V_ASSUME(zck->comp.dc_data != NULL); }
-    zck->comp.dc_data_size = in->dc_size0; zck->comp.dc_data_loc = in->dc_loc0;
-    if(in->data_size0) { zck->comp.data = malloc(in->data_size0); V_ASSUME(zck->comp.data != NULL); }
-    zck->comp.data_size = in->data_size0;
-    zck->comp.end_dchunk = verif_end_dchunk;
-    if(in->ctx_live) { zck->check_chunk_hash.ctx = malloc(1); V_ASSUME(zck->check_chunk_hash.ctx != NULL); }
-    if(in->type_set) zck->check_chunk_hash.type = &zck->chunk_hash_type;
-    g_hu_hash = &zck->check_chunk_hash; g_hu_total = in->hu_total0; g_hu_k = in->hu_k; g_hu_seen = in->hu_seen0;
-    g_hu_final = in->hu_final0; g_hu_inits = in->hu_inits0; g_k1 = in->k1;
-    return zck;
-}
-
-void h_comp_end_dchunk(void) {
-    IN_cd in = nondet_IN_cd();
-    zckCtx *zck = mk_reader(&in);
-    ssize_t r = comp_end_dchunk(zck, in.use_dict != 0, in.fd_size);
-    V_COVER(r >= 1 && in.has_next); V_COVER(r >= 1 && !in.has_next); V_COVER(r < 1 && in.err0 == 0 && in.mode == ZCK_MODE_READ);
-    V_COVER(r >= 1 && in.valid0 == -1);
-}
-
 /* ---- reader with a chunk list of up to three entries (RD_WF) ------------------------------------ */
 typedef struct {
     int err0, mode, ctype, htype, fd, comp_type, started, eof0, uncomp_src;
@@ -117,6 +72,15 @@ static zckCtx *mk_reader3(IN_rd *in) {
     V_ASSUME(in->failed0 == 0 || in->failed0 == 1);
     g_io_failed = in->failed0;
     return zck;
+}
+
+void h_comp_end_dchunk(void) {
+    IN_rd in = nondet_IN_rd();
+    zckCtx *zck = mk_reader3(&in);
+    V_ASSUME(in.cur >= 0);
+    ssize_t r = comp_end_dchunk(zck, in.use_dict != 0, in.dst_size);
+    V_COVER(r >= 1 && in.cur + 1 < in.n_nodes); V_COVER(r >= 1 && in.cur + 1 == in.n_nodes); V_COVER(r < 1 && in.err0 == 0 && in.mode == ZCK_MODE_READ);
+    V_COVER(r >= 1 && in.valid[in.cur] == -1 && in.comp_type == ZCK_COMP_ZSTD); V_COVER(r >= 1 && in.comp_type == ZCK_COMP_NONE);
 }
 
 void h_comp_read(void) {
